@@ -13,7 +13,9 @@ property says, and emit them as Lean definitions (`Gen/TreeEdit.lean`).  `Props/
   `for c in cut[::-1]: res.insert(<index of the removed fragment>, c)`; `_cut_igraph` / `_cut_networkx`: the proximal
   node set is `<the other side> + [cut_node]`;
 * `_subset_treeneuron` (navis/morpho/subset.py): the connector filter column, the orphan parent value, the tag filter,
-  the `keep_disc_cn` guard, the positional mask branch;
+  the `keep_disc_cn` guard, the positional mask branch, the mask -> ids translation under `prevent_fragments`;
+* that reroot targets and the nodes of the prune methods are made iterable with `force_type=object` (a tag next to
+  ids must not turn the ids into strings);
 * `connected_subgraph`: the three index literals (`[-1]`, `[0]`, `[-1]`).
 
 Only these facts are extracted (names bound to the same object, literals, slice bounds, attribute names): renaming
@@ -94,8 +96,10 @@ def _prune_spec(fn):
                  and [ast.unparse(a) for a in st.value.args] == [piece] for st in loop.body)
     returns = any(isinstance(st, ast.If) and any(isinstance(r, ast.Return) and r.value is not None and ast.unparse(r.value) == work for r in st.body)
                   for st in fn.body)
+    keeps = any(isinstance(st, ast.Assign) and ast.unparse(st.targets[0]) == ast.unparse(loop.iter)
+                and ast.unparse(st.value) == f'utils.make_iterable({ast.unparse(loop.iter)}, force_type=object)' for st in fn.body)
     ok = args[0] == work and args[1] == var and reinit and returns
-    return dict(work=work, first_arg=args[0], second_arg=args[1], loop_var=var, ret=ret, index=index, reinit=reinit, ok=ok)
+    return dict(keeps_objects=keeps, work=work, first_arg=args[0], second_arg=args[1], loop_var=var, ret=ret, index=index, reinit=reinit, ok=ok)
 
 
 # ------------------------------------------------------------------------------------------------ reroot
@@ -127,7 +131,9 @@ def _reroot_facts(fn):
                     newp = _lit(st.value)
     if lhs is None or newp is None:
         raise ValueError('reroot_skeleton: parent assignment not found')
-    return dict(lhs=lhs, rhs=rhs, newp=newp, rereads=rereads)
+    keeps = any(isinstance(st, ast.Assign) and ast.unparse(st.targets[0]) == 'new_roots'
+                and ast.unparse(st.value) == 'utils.make_iterable(new_root, force_type=object)' for st in fn.body)
+    return dict(lhs=lhs, rhs=rhs, newp=newp, rereads=rereads, keeps_objects=keeps)
 
 
 # ------------------------------------------------------------------------------------------------ cut
@@ -193,7 +199,7 @@ def _subset_facts(fn):
             if ast.unparse(g.iter) == 'x.tags[t]' and len(g.ifs) == 1:
                 tag_cond = ast.unparse(g.ifs[0])
         if isinstance(s, ast.If) and ast.unparse(s.test) == 'isinstance(subset, np.ndarray) and subset.dtype == bool':
-            mask_positional = any(ast.unparse(a) == 'x._nodes = x._nodes.loc[subset]' for a in s.body) and \
+            mask_positional |= any(ast.unparse(a) == 'x._nodes = x._nodes.loc[subset]' for a in s.body) and \
                 any(ast.unparse(a) == 'x._nodes = x.nodes[x.nodes.node_id.isin(subset)]' for a in s.orelse)
     # the dispatch on the form of `subset`: a graph contributes its nodes, a DataFrame its `node_id` column
     graph_nodes = frame_ids = False
@@ -207,12 +213,22 @@ def _subset_facts(fn):
         if t == 'isinstance(subset, pd.DataFrame)' and body == ['subset = subset.node_id.values']:
             frame_ids = True
         node = node.orelse[0] if len(node.orelse) == 1 else None
+    # `prevent_fragments`: a boolean mask is translated into node ids BEFORE `connected_subgraph` is asked
+    pf_mask_to_ids = False
+    for st in fn.body:
+        if isinstance(st, ast.If) and ast.unparse(st.test) == 'prevent_fragments':
+            body = [ast.unparse(b) for b in st.body]
+            conv = [i for i, b in enumerate(st.body) if isinstance(b, ast.If)
+                    and ast.unparse(b.test) == 'isinstance(subset, np.ndarray) and subset.dtype == bool'
+                    and [ast.unparse(c) for c in b.body] == ['subset = x.nodes.node_id.values[subset]'] and not b.orelse]
+            call = [i for i, b in enumerate(body) if b == 'subset, new_root = graph.connected_subgraph(x, subset)']
+            pf_mask_to_ids = bool(conv) and bool(call) and conv[0] < call[0]
     src = ast.unparse(fn)
     drop_empty = 'x.tags = {t: x.tags[t] for t in x.tags if x.tags[t]}' in src
     if None in (conn_col, conn_against, orphan, tag_cond):
         raise ValueError('_subset_treeneuron: filters not found in the expected shape')
     return dict(conn_col=conn_col, conn_against=conn_against, guard=guard, orphan=orphan, orphan_isin=orphan_isin, tag_cond=tag_cond,
-                drop_empty=drop_empty, mask_positional=mask_positional, graph_nodes=graph_nodes, frame_ids=frame_ids)
+                drop_empty=drop_empty, mask_positional=mask_positional, graph_nodes=graph_nodes, frame_ids=frame_ids, pf_mask_to_ids=pf_mask_to_ids)
 
 
 def _connsub_indices(fn):
@@ -274,12 +290,16 @@ def generate(repo: Path):
     A(f'def pruneDistalSpec : PruneSpec := {spec(pd_)}')
     A(f"/-- `graph.cut_skeleton({pp_['first_arg']}, {pp_['second_arg']}, ret='{pp_['ret']}')[{pp_['index']}]`, working copy `{pp_['work']}`, loop variable `{pp_['loop_var']}` -/")
     A(f'def pruneProximalSpec : PruneSpec := {spec(pp_)}')
+    A('/-- the requested nodes are made iterable with `force_type=object`: ids stay ids next to tags (no string array) -/')
+    A(f"def pruneNodesKeptAsObjects : Bool := {_b(pd_['keeps_objects'] and pp_['keeps_objects'])}")
     A('')
     A('/-! ### `reroot_skeleton`: what the loop writes into the node table -/')
     A(f"def rerootSpec : RerootSpec := {{ lhs := {sl(rr['lhs'])}, rhs := {sl(rr['rhs'])}, newRootParent := {_int(rr['newp'])}, rereadsRoots := {_b(rr['rereads'])} }}")
     A('/-- `TreeNeuron.reroot` forwards its working copy and the target with `inplace=True`; `root.setter` calls `self.reroot(value, inplace=True)` -/')
     A(f'def rerootMethodForwards : Bool := {_b(method_fwd)}')
     A(f'def rootSetterReroots : Bool := {_b(setter_ok)}')
+    A('/-- `new_roots = utils.make_iterable(new_root, force_type=object)`: a resolved tag is stored as the node id it names -/')
+    A(f"def rerootTargetsKeptAsObjects : Bool := {_b(rr['keeps_objects'])}")
     A('')
     A('/-! ### `cut_skeleton` front end -/')
     A(f"def cutSingleTreeGuard : Bool := {_b(cf['single'])}")
@@ -303,6 +323,8 @@ def generate(repo: Path):
     A('/-- `isinstance(subset, (nx.DiGraph, nx.Graph))` -> `subset.nodes`; `isinstance(subset, pd.DataFrame)` -> `subset.node_id.values` -/')
     A(f"def subsetGraphGivesItsNodes : Bool := {_b(sf['graph_nodes'])}")
     A(f"def subsetFrameGivesNodeIdColumn : Bool := {_b(sf['frame_ids'])}")
+    A('/-- with `prevent_fragments` a boolean mask becomes `x.nodes.node_id.values[mask]` before `connected_subgraph` -/')
+    A(f"def subsetPreventFragmentsMaskToIds : Bool := {_b(sf['pf_mask_to_ids'])}")
     A('')
     A('/-! ### `connected_subgraph`: `sorted(...)[i]` -/')
     A(f"def connSubLongestIndex : Int := {_int(ci['longest_path'][0])}")
